@@ -1,0 +1,13 @@
+//go:build verif
+
+package store
+
+import (
+	"context"
+
+	"github.com/celestiaorg/go-header/internal/verifhook"
+)
+
+// VerifSetScheduler installs the verification harness' scheduler callback behind the yield hooks
+// (build tag `verif` only). Passing nil removes it.
+func VerifSetScheduler(f func(ctx context.Context, point string)) { verifhook.Set(f) }
